@@ -274,6 +274,10 @@ def _invalidate_facts(facts, node):
         del facts[k]
 
 
+def _is_true_const(test):
+    return isinstance(test, ast.Constant) and bool(test.value) is True
+
+
 class Enumerator(object):
     def __init__(self, prune=True):
         self.prune = prune
